@@ -9,19 +9,33 @@ set_option linter.unusedSimpArgs false
 /-- the common part of every LAN read: request for (channel, parameter), continuation on the data -/
 theorem getLanParam_run (ch sel setSel blk : Nat) (k : List Nat → Outcome Result) (s : BmcState)
     (h1 : ch < 16) (h2 : sel < 256) (h3 : setSel < 256) (h4 : blk < 256) :
-    (getLanParam ch sel setSel blk false k).run s = (s, k (get_lan_param ch sel s)) := by
+    (getLanParam ch sel setSel blk k).run s = (s, k (get_lan_param ch sel s)) := by
   have e1 : ch / 128 = 0 := by omega
   have e2 : ch % 256 = ch := by omega
-  simp [getLanParam, api_eval, bitsOf, bitOf, b2n, Nat.mod_eq_of_lt, *]
+  simp [getLanParam, getLanRequest, api_eval, bitsOf, bitOf, b2n, Nat.mod_eq_of_lt, *]
 
+/-- INTENDED get_lan_config_param: the normal mode returns the data, the revision-only mode the parameter
+revision - both of the ADDRESSED channel and parameter -/
 theorem get_lan_config_param_refines (ch sel setSel blk : Nat) (revOnly : Bool) (s : BmcState)
     (h : (Call.getLanParam ch sel setSel blk revOnly).InRange) :
     (api_get_lan_config_param ch sel setSel blk revOnly).run s =
-      (s, .ok (.bytes (if revOnly then [] else get_lan_param ch sel s))) := by
+      (s, .ok (if revOnly then .nat (get_lan_revision ch sel s) else .bytes (get_lan_param ch sel s))) := by
   obtain ⟨h1, h2, h3, h4⟩ := h
-  cases revOnly with
-  | false => simp [api_get_lan_config_param, getLanParam_run, *]
-  | true => simp [api_get_lan_config_param, getLanParam, api_eval, bitsOf, bitOf, b2n]
+  have e1 : ch / 128 = 0 := by omega
+  have e2 : ch % 256 = ch := by omega
+  have e3 : (ch + 128) / 128 % 2 = 1 := by omega
+  have e4 : (ch + 128) % 16 = ch := by omega
+  have e5 : (ch + 128) % 256 = ch + 128 := by omega
+  cases revOnly <;>
+    simp [api_get_lan_config_param, getLanRequest, api_eval, bitsOf, bitOf, b2n, Nat.mod_eq_of_lt, *]
+
+/-- AS SHIPPED, revision-only mode: whatever channel and selectors the caller names, the request on the wire is
+`80h 00h 00h 00h` (channel 0, parameter 0) and the call returns the (empty) data instead of the revision -/
+theorem get_lan_config_param_shipped_revision_only (ch sel setSel blk : Nat) (s : BmcState) :
+    (api_get_lan_config_param_shipped ch sel setSel blk true).request =
+        .ok { netfn := 0x0c, lun := 0, cmd := 0x02, data := [0x80, 0, 0, 0] } ∧
+    (api_get_lan_config_param_shipped ch sel setSel blk true).run s = (s, .ok (.bytes [])) := by
+  constructor <;> simp [api_get_lan_config_param_shipped, api_eval, bitsOf, bitOf, b2n]
 
 theorem set_lan_config_param_refines (ch sel : Nat) (data : List Nat) (s : BmcState) (h1 : ch < 16) (h2 : sel < 256) :
     (api_set_lan_config_param ch sel data).run s = (set_lan_param ch sel data s, .ok .unit) := by
